@@ -573,8 +573,8 @@ class Gen:
 		r = self.receiver(t, depth, opt=True)
 		if r is None:
 			return self.expr(t, 0)
-		lo = self.rng.choice(['', '0', '1', '-1'])
-		hi = self.rng.choice(['', '1', '2', '-1'])
+		lo = self.rng.choice(['', '0', '1', '-1', '-2', '+1'])
+		hi = self.rng.choice(['', '1', '2', '-1', '-3'])
 		return Src(f'{r.text}[{lo}:{hi}]', P_ATOM, True)
 
 	# -- literals
